@@ -359,6 +359,8 @@ def run_engine(tier, seed, sizes=None):
                     stats["distdrop.all_dropped"] = stats.get("distdrop.all_dropped", 0) + 1
                 if 1 <= len(pat) <= 5:
                     dd_patterns[r["libxml"]].add(pat)
+            elif l.startswith("# reconfigured-after-failure "):
+                stats["reconfigured_and_loaded_again_after_failure"] = stats.get("reconfigured_and_loaded_again_after_failure", 0) + int(l.split()[2])
             elif l.startswith("# memattr-catalogue "):
                 stats["memattr_catalogue_cases"] = stats.get("memattr_catalogue_cases", 0) + int(l.split()[2])
             elif l.startswith("# hugegp-skipped "):
